@@ -143,7 +143,7 @@ def targets_typelevel(n, nodes):
     all components decorated with it)."""
     typed = [i for i, nd in enumerate(nodes) if nd.get("treq") or nd.get("topt")]
     if n == 4:
-        return ([["node", 3], ["dict"], ["pair", 2, 3], ["incr-dict"], ["incr-pair", 2, 3], ["incr-pair", 1, 3]]
+        return ([["node", 3], ["dict"], ["pair", 2, 3], ["incr-dict"], ["incr-pair", 2, 3]]
                 + [["typeof", typed[-1]]])
     ts = [["node", i] for i in range(n)]
     ts += [["pair", i, j] for i in range(n) for j in range(i + 1, n)]
